@@ -129,6 +129,7 @@ func runC02(w *World, r *Report) {
 	r.Min("R6", 4)
 	r.Min("R7", 8)
 	r.Min("R8", 5)
+	c02ConfigGetters(w, r)
 	r.Min("R9", 2)
 }
 
@@ -447,6 +448,12 @@ func c02Expiry(w *World, r *Report) {
 		ok := len(sm) == 1 && len(vm) == 1 && len(em) == 1 && Path(sm[0].Common().Args[0]) == "param:cs.concurrentSetKey" &&
 			strings.Contains(Path(vm[0].Common().Args[1]), "extractMemberFromItem(") && Derives(em[0].Common().Args[1], func(x ssa.Value) bool { return x == sm[0].Value() })
 		r.Check(ok, "R7", "checkForExpiredRequests/validates-every-member", cf.Pos(), "every member of the set is parsed and validated")
+		// ... every member: the sweep loop ends only by exhaustion (one abandoned slot must not hide the next)
+		var exits []string
+		for _, h := range loopHeadersOf(cf) {
+			exits = append(exits, loopExits(h, false)...)
+		}
+		r.Check(len(loopHeadersOf(cf)) == 1 && len(exits) == 0, "R7", "checkForExpiredRequests/sweep-runs-to-exhaustion", cf.Pos(), "the loop over the set's members has no exit other than exhaustion (extra exits %v)", exits)
 	} else {
 		r.Undec("R7", "checkForExpiredRequests", token.NoPos, "function not found")
 	}
@@ -609,5 +616,49 @@ func c02IncDec(w *World, r *Report) {
 		} else if !recorded {
 			r.Fail("R9", "Inc/parent-error-leaves-slot-unrecorded", posOf(alt.Ret), "after a successful SAdd the function returns the parent's error without recording status/member: Dec and OnRequestDrop then find nothing to release and the slot stays taken until the GC expiry")
 		}
+	}
+}
+
+
+// c02ConfigGetters: each duration getter of the concurrent strategy's
+// configuration converts its OWN field (seconds) and two getters never read
+// the same field.
+func c02ConfigGetters(w *World, r *Report) {
+	want := map[string]string{"GetRequestExpiration": "RequestExpirationSec", "GetGCInterval": "GCIntervalSec"}
+	for g, field := range want {
+		f := w.Fn(pkgQuota, "ConcurrentConfig."+g)
+		if f == nil {
+			r.Undec("R7", "ConcurrentConfig."+g, token.NoPos, "getter not found")
+			continue
+		}
+		ok, n := true, 0
+		var got []string
+		for _, alt := range ReturnAlts(f, 0) {
+			if _, isG := peel(alt.Val).(*ssa.UnOp); isG && strings.HasPrefix(Path(alt.Val), "*global:default") {
+				// the package default, returned when the field is zero
+				op, _ := FindRel(relsOfConds(alt.Conds), func(v ssa.Value) bool { return strings.HasSuffix(Path(v), "cc."+field) }, func(v ssa.Value) bool { return isIntConst(v, 0) })
+				if op != "==" {
+					ok = false
+					got = append(got, "default returned under "+field+" "+op+" 0")
+				}
+				continue
+			}
+			if k, isK := peel(alt.Val).(*ssa.Const); isK {
+				_ = k
+				op, _ := FindRel(relsOfConds(alt.Conds), func(v ssa.Value) bool { return strings.HasSuffix(Path(v), "cc."+field) }, func(v ssa.Value) bool { return isIntConst(v, 0) })
+				if op != "==" {
+					ok = false
+					got = append(got, "constant returned under "+field+" "+op+" 0")
+				}
+				continue
+			}
+			n++
+			nv, factor, shape := productOf(alt.Val, func(v ssa.Value) bool { return strings.HasSuffix(Path(v), "cc."+field) })
+			if !shape || nv != 1 || factor != 1e9 {
+				ok = false
+				got = append(got, trunc(Path(alt.Val), 60))
+			}
+		}
+		r.Check(ok && n == 1, "R7", "ConcurrentConfig."+g+"/own-field-in-seconds", f.Pos(), "%s returns %s x 1s (default only when the field is 0) %v", g, field, got)
 	}
 }
